@@ -121,50 +121,67 @@ func runRequests(r *common.Run, sk *sink, caseNo int, rng *rand.Rand, seed int64
 		defer watchers.Done()
 		ch := rs.ResultC()
 		terminal := false
+		handle := func(res dragonboat.RequestResult) bool {
+			code := "other"
+			switch {
+			case res.Completed():
+				code = "completed"
+			case res.Committed():
+				code = "committed"
+			case res.Timeout():
+				code = "timeout"
+			case res.Terminated():
+				code = "terminated"
+			case res.Dropped():
+				code = "dropped"
+			case res.Rejected():
+				code = "rejected"
+			case res.Aborted():
+				code = "aborted"
+			case res.RequestOutOfRange():
+				code = "out-of-range"
+			}
+			rec.mu.Lock()
+			rec.results = append(rec.results, code)
+			if code == "committed" {
+				rec.committed++
+			} else {
+				if code == "completed" && rec.kind == "propose" {
+					rec.value = res.GetResult().Value
+					rec.data = append([]byte(nil), res.GetResult().Data...)
+				}
+				rec.doneAt = c.Clock.Now()
+				terminal = true
+			}
+			rec.mu.Unlock()
+			if terminal && release {
+				rec.mu.Lock()
+				rec.released = true
+				rec.mu.Unlock()
+				rs.Release()
+				return true
+			}
+			return false
+		}
 		for {
 			select {
 			case res := <-ch:
-				code := "other"
-				switch {
-				case res.Completed():
-					code = "completed"
-				case res.Committed():
-					code = "committed"
-				case res.Timeout():
-					code = "timeout"
-				case res.Terminated():
-					code = "terminated"
-				case res.Dropped():
-					code = "dropped"
-				case res.Rejected():
-					code = "rejected"
-				case res.Aborted():
-					code = "aborted"
-				case res.RequestOutOfRange():
-					code = "out-of-range"
-				}
-				rec.mu.Lock()
-				rec.results = append(rec.results, code)
-				if code == "committed" {
-					rec.committed++
-				} else {
-					if code == "completed" && rec.kind == "propose" {
-						rec.value = res.GetResult().Value
-						rec.data = append([]byte(nil), res.GetResult().Data...)
-					}
-					rec.doneAt = c.Clock.Now()
-					terminal = true
-				}
-				rec.mu.Unlock()
-				if terminal && release {
-					rec.mu.Lock()
-					rec.released = true
-					rec.mu.Unlock()
-					rs.Release()
+				if handle(res) {
 					return
 				}
 			case <-quiesce:
-				return
+				// a result that was delivered before quiescence but not read yet (the scheduler may have
+				// kept this goroutine waiting) still counts
+				for {
+					select {
+					case res := <-ch:
+						if handle(res) {
+							return
+						}
+					default:
+						return
+					}
+				}
 			}
 		}
 	}
